@@ -22,7 +22,7 @@ import (
 type edit struct {
 	Elem int    // pre-order index of the element
 	Attr int    // -1 = the element itself, else attribute index
-	Kind string // delete | duplicate | empty
+	Kind string // delete | duplicate | empty | blank (value replaced by white space only) | huge
 }
 
 func (e edit) String() string { return fmt.Sprintf("%s(el%d,attr%d)", e.Kind, e.Elem, e.Attr) }
@@ -39,9 +39,12 @@ func enumerateEdits(root *spsim.Node) []edit {
 			out = append(out, edit{i, -1, k})
 		}
 		for a := range el.Attrs {
-			for _, k := range []string{"delete", "duplicate", "empty"} {
+			for _, k := range []string{"delete", "duplicate", "empty", "blank", "blank_nl", "huge"} {
 				out = append(out, edit{i, a, k})
 			}
+		}
+		if len(el.Kids) == 0 && el.Text != "" {
+			out = append(out, edit{i, -1, "blank"}, edit{i, -1, "blank_nl"})
 		}
 		i++
 	})
@@ -74,6 +77,12 @@ func applyEdit(root *spsim.Node, ed edit) *spsim.Node {
 				el.Attrs = append(el.Attrs, el.Attrs[ed.Attr])
 			case "empty":
 				el.Attrs[ed.Attr].Value = ""
+			case "blank":
+				el.Attrs[ed.Attr].Value = " "
+			case "blank_nl":
+				el.Attrs[ed.Attr].Value = "\n\t "
+			case "huge":
+				el.Attrs[ed.Attr].Value = strings.Repeat(el.Attrs[ed.Attr].Value+"9", 3000)
 			}
 			return
 		}
@@ -84,6 +93,10 @@ func applyEdit(root *spsim.Node, ed edit) *spsim.Node {
 			p.Kids = append(p.Kids, el.Clone())
 		case "empty":
 			el.Kids, el.Text, el.Raw = nil, "", ""
+		case "blank":
+			el.Text = " "
+		case "blank_nl":
+			el.Text = "\n  \t"
 		}
 	})
 	if !done {
@@ -317,8 +330,8 @@ func c09KeyGrid(r *core.Run, idx int, rng *rand.Rand) {
 				q := "SAMLRequest=" + url.QueryEscape(spsim.DeflateB64(x)) + "&SigAlg=" + url.QueryEscape(alg) + "&Signature=" + url.QueryEscape(sig)
 				call = e.Do(env.Req{Path: env.PathSSO, Query: q})
 			} else {
-				// embedded signature made with an RSA key, registered key of another type
-				sx, err := spsim.SignEnveloped(x, keys.Get("sp1"), spsim.XMLSignOpts{Alg: spsim.AlgRSASHA256})
+				// embedded signature made with an RSA key (with and without KeyInfo), registered key of another type or none
+				sx, err := spsim.SignEnveloped(x, keys.Get("sp1"), spsim.XMLSignOpts{Alg: spsim.AlgRSASHA256, DropKey: sig == "" || sig == "!"})
 				if err != nil {
 					panic(err)
 				}
@@ -548,7 +561,7 @@ func init() {
 			r := c.Run
 			r.Rule = "(a) every single deletion / duplication / emptying of each element and attribute of valid AuthnRequest, LogoutRequest, AttributeQuery and SOAP envelopes (unsigned, query-signed, signed then edited, edited then signed) on all transports, thorough: all pairs of such edits; (b) every SigAlg URI known to the libraries x registered key type {RSA, ECDSA, Ed25519, DSA, none} x signature shapes x both bindings; (c) every routed and unrouted path x 9 methods x missing / duplicated / malformed parameters, content types, Forwarded / Origin headers, Host values; (d) byte-level mutations of messages and of the encoded parameter; (e) SP metadata: the same edit families on EntityDescriptor documents, garbled / wrapped / PEM-armoured / non-RSA certificates, byte mutations, followed by requests naming an accepted registration; thorough (f): coverage-guided go test -fuzz on the decoders, NewServiceProvider and a whole-handler target. Monitor: recover() around ServeHTTP and NewServiceProvider, child-process death, watchdog. Distinct = structurally different inputs (by construction for the enumerations)."
 			n := len(c09Bases(rand.New(rand.NewSource(11))))
-			r.Require("single_edits", 800)
+			r.Require("single_edits", 1500)
 			r.Require("grid_cells", 40)
 			r.Require("metadata_documents", 300)
 			r.Require("requests", 5000)
